@@ -56,7 +56,7 @@ var names = []string{"", "pk", "if", "1x", "a-b", "_", "a/b", "Größe", "demo"}
 // moreNames are tried in a reduced product (valid / semantic input x three pre-states x {no flag, -debug}): every way a
 // name can fail to be an identifier that the first list does not have (numeric but not decimal-digit runes, a leading
 // non-ASCII digit, combining marks, blanks, dots), non-ASCII identifiers, and predeclared identifiers.
-var moreNames = []string{"x²", "vⅧ", "half½", "x٣", "٣x", "π", "ａｂ", "e\u0301", "a b", "a.b", "a\\b", "..", ".", "int", "any", "nil", "Demo2", "__", "_x", "x_", " ", "\t", "\u00a0", " pk", "pk ", "\n"}
+var moreNames = []string{"x²", "vⅧ", "half½", "x٣", "٣x", "π", "ａｂ", "e\u0301", "a b", "a.b", "a\\b", "..", ".", "int", "any", "nil", "Demo2", "Func", "GO", "Type", "iF", "__", "_x", "x_", " ", "\t", "\u00a0", " pk", "pk ", "\n"}
 
 var preStates = []string{"out-missing", "out-is-file", "out-empty", "pkg-empty-dir", "pkg-dir-with-user-files", "pkg-dir-with-target-files", "pkg-is-file", "pkg-symlink-to-dir", "pkg-symlink-dangling", "no-out-flag"}
 
